@@ -559,7 +559,8 @@ def generate_richardson_integrator(basis_integrator, richardson_iter=2):
 
         def adaptive_richardson(self, rhs, t, y, constants, timestep):
             dt0, (dt_z, dy_z) = self.subdiv_step(0, rhs, t, y, timestep, constants, 1)
-            if dt_z < timestep:
+            if D.ar_numpy.abs(dt_z) < D.ar_numpy.abs(timestep):
+                # the basis method shortened the step (either direction of time): the finer levels cover the same, shorter interval
                 timestep = dt_z
             self.stage_values[0, 0] = dy_z
             prev_error = None
